@@ -131,6 +131,10 @@ static void blk_groups(void) {
 			sm9_z256_point_add(&R, &PT[i], &PT[j]); g1_ser(got, &R); cmp_pt("g1", "add", got, exp, el, g1_len(got), w);
 			SM9_Z256_POINT NQ_; sm9_z256_point_neg(&NQ_, &PT[j]); sm9_z256_point_sub(&R, &PT[i], &NQ_); g1_ser(got, &R); cmp_pt("g1", "sub-of-negated", got, exp, el, g1_len(got), w);
 			if (i == j) { sm9_z256_point_dbl(&R, &PT[i]); g1_ser(got, &R); cmp_pt("g1", "dbl", got, exp, el, g1_len(got), w); } }
+		/* the same point in two representations (Jacobian with Z != 1 as computed, and re-imported with Z = 1) through the generic addition: must double */
+		for (int i = 0; i < np; i++) { if (!vh_next()) continue; if (sm9_z256_point_is_at_infinity(&PT[i])) continue; SM9_Z256_POINT A1, R, D; if (sm9_z256_point_from_uncompressed_octets(&A1, ps[i]) != 1) continue; uint8_t got[65], exp[65]; char w[40]; snprintf(w, sizeof w, "P%d,P%d(Z=1)", i, i); sm9_z256_point_dbl(&D, &PT[i]); g1_ser(exp, &D);
+			sm9_z256_point_add(&R, &PT[i], &A1); g1_ser(got, &R); cmp_pt("g1", "add-same-point-other-representation", got, exp, (int)g1_len(exp), g1_len(got), w); sm9_z256_point_add(&R, &A1, &PT[i]); g1_ser(got, &R); cmp_pt("g1", "add-same-point-other-representation", got, exp, (int)g1_len(exp), g1_len(got), w);
+			SM9_Z256_POINT NA; sm9_z256_point_neg(&NA, &A1); sm9_z256_point_add(&R, &PT[i], &NA); g1_ser(got, &R); uint8_t inf[1] = { 0 }; cmp_pt("g1", "add-opposite-point-other-representation", got, inf, 1, g1_len(got), w); sm9_z256_point_sub(&R, &PT[i], &A1); g1_ser(got, &R); cmp_pt("g1", "sub-same-point-other-representation", got, inf, 1, g1_len(got), w); }
 		for (int i = 0; i < np; i++) for (int s = 0; s < NSC; s++) { if (!vh_next()) continue; SM9_Z256_POINT R; uint8_t got[65], exp[65]; char w[100]; snprintf(w, sizeof w, "k=%s,P%d", HX(SC[s].b, 32), i); sm9_z256_t k; to_z(k, SC[s].b); int el = mq(exp, 65, "g1mul %s %s", HX(SC[s].b, 32), hxn(ps[i], g1_len(ps[i])));
 			sm9_z256_point_mul(&R, k, &PT[i]); g1_ser(got, &R); cmp_pt("g1", "mul", got, exp, el, g1_len(got), w);
 			if (i == 0) { sm9_z256_point_mul_generator(&R, k); g1_ser(got, &R); cmp_pt("g1", "mul_generator", got, exp, el, g1_len(got), w); } } }
@@ -149,6 +153,9 @@ static void blk_groups(void) {
 			sm9_z256_twist_point_add_full(&R, &PT[i], &PT[j]); g2_ser(got, &R); cmp_pt("g2", "add_full", got, exp, el, g2_len(got), w);
 			SM9_Z256_TWIST_POINT NQ_; sm9_z256_twist_point_neg(&NQ_, &PT[j]); sm9_z256_twist_point_sub(&R, &PT[i], &NQ_); g2_ser(got, &R); cmp_pt("g2", "sub-of-negated", got, exp, el, g2_len(got), w);
 			if (i == j) { sm9_z256_twist_point_dbl(&R, &PT[i]); g2_ser(got, &R); cmp_pt("g2", "dbl", got, exp, el, g2_len(got), w); } }
+		for (int i = 0; i < np; i++) { if (!vh_next()) continue; if (sm9_z256_twist_point_is_at_infinity(&PT[i])) continue; SM9_Z256_TWIST_POINT A1, R, D; if (sm9_z256_twist_point_from_uncompressed_octets(&A1, ps[i]) != 1) continue; uint8_t got[129], exp[129]; char w[40]; snprintf(w, sizeof w, "Q%d,Q%d(Z=1)", i, i); sm9_z256_twist_point_dbl(&D, &PT[i]); g2_ser(exp, &D);
+			sm9_z256_twist_point_add_full(&R, &PT[i], &A1); g2_ser(got, &R); cmp_pt("g2", "add_full-same-point-other-representation", got, exp, (int)g2_len(exp), g2_len(got), w); sm9_z256_twist_point_add_full(&R, &A1, &PT[i]); g2_ser(got, &R); cmp_pt("g2", "add_full-same-point-other-representation", got, exp, (int)g2_len(exp), g2_len(got), w);
+			SM9_Z256_TWIST_POINT NA; sm9_z256_twist_point_neg(&NA, &A1); sm9_z256_twist_point_add_full(&R, &PT[i], &NA); g2_ser(got, &R); uint8_t inf[1] = { 0 }; cmp_pt("g2", "add_full-opposite-point-other-representation", got, inf, 1, g2_len(got), w); }
 		for (int i = 0; i < np; i++) for (int s = 0; s < NSC; s++) { if (!vh_next()) continue; SM9_Z256_TWIST_POINT R; uint8_t got[129], exp[129]; char w[100]; snprintf(w, sizeof w, "k=%s,Q%d", HX(SC[s].b, 32), i); sm9_z256_t k; to_z(k, SC[s].b); int el = mq(exp, 129, "g2mul %s %s", HX(SC[s].b, 32), hxn(ps[i], g2_len(ps[i])));
 			sm9_z256_twist_point_mul(&R, k, &PT[i]); g2_ser(got, &R); cmp_pt("g2", "mul", got, exp, el, g2_len(got), w);
 			if (i == 0) { sm9_z256_twist_point_mul_generator(&R, k); g2_ser(got, &R); cmp_pt("g2", "mul_generator", got, exp, el, g2_len(got), w); } } }
